@@ -19,7 +19,7 @@ GLUE = ["glue_enc.c", "glue_dec.c", "glue_misc.c"]
 REPO_C = ["crctab.c", "divbwt.c"]
 CFLAGS = ["-O1", "-g", "-std=gnu99", "-w", "-fno-omit-frame-pointer", "-fsanitize=address,undefined",
           "-fno-sanitize-recover=undefined"] + core.DEFS[:4]
-FUZZ_PROPS = ["decode_raw", "decode_defect", "decode_valid", "roundtrip", "collect"]
+FUZZ_PROPS = ["decode_raw", "decode_defect", "decode_valid", "decode_sym", "roundtrip", "collect"]
 ENV = {"ASAN_OPTIONS": "detect_leaks=0:abort_on_error=0:exitcode=99:allocator_may_return_null=1",
        "UBSAN_OPTIONS": "print_stacktrace=1:halt_on_error=1:exitcode=99", "PATH": "/usr/bin:/bin", "LC_ALL": "C"}
 
